@@ -136,15 +136,22 @@ Fixpoint profiles_while (fuel : nat) (st : pst) : pst :=
     end
   else st.
 
-(* the version inside "( op version )": one IDENT, or IDENT COLON IDENT when it carries an epoch.
-   (Fix C10-epoch-and-space-in-version.  Before the fix this was [expect IDENT st]: a version with
-   an epoch, "a (>= 1:2.0)", was rejected with three errors; and no whitespace was skipped
-   between the version and ")", so "a (>= 1 )" was rejected too.) *)
+(* the version inside "( op version )": the whole run of IDENT and COLON tokens (at least one) --
+   a version with an epoch is lexed IDENT COLON IDENT, its upstream part may contain further
+   colons, and debversion also accepts empty colon-separated parts ("7:1::2", "5::", ":5").
+   History in /repo: before 0eb8794 this was [expect IDENT st] ("a (>= 1:2.0)" rejected with three
+   errors); 0eb8794 accepted one COLON IDENT; c2fa7c8 (COLON IDENT)*; 4b18f7c the plain run, as
+   the lossy reader does.  43dd02f added the skip_ws between the version and ")". *)
+Definition cur_is_vtok (st : pst) : bool := cur_is st IDENT || cur_is st COLON.
+Fixpoint version_run (fuel : nat) (st : pst) : pst :=
+  if cur_is_vtok st then
+    match fuel with
+    | O => out_of_fuel st
+    | S f => version_run f (bump st)
+    end
+  else st.
 Definition version_text (st : pst) : pst :=
-  if cur_is st IDENT then
-    let st := bump st in
-    if cur_is st COLON then expect IDENT (bump st) else st
-  else error st.
+  if cur_is_vtok st then version_run (loop_fuel st) st else error st.
 
 Definition parse_relation (st : pst) : pst :=
   in_node RELATION (fun st =>
